@@ -299,7 +299,9 @@ func (enc *jsonEncoder) AppendString(val string) {
 func (enc *jsonEncoder) AppendTimeLayout(time time.Time, layout string) {
 	enc.addElementSeparator()
 	enc.buf.AppendByte('"')
-	enc.buf.AppendTime(time, layout)
+	// The layout may contain arbitrary literal text, so the formatted time
+	// needs the same escaping as any other string.
+	enc.safeAddString(time.Format(layout))
 	enc.buf.AppendByte('"')
 }
 
